@@ -980,6 +980,10 @@ class Interp:
                 return self.zobj_attr(obj, name)
             if isinstance(obj, Z) and getattr(self, "opaque_objects", False):
                 return self.opaque_attr(obj, name)
+            if isinstance(obj, Z) and obj.cls is None:
+                from .contracts import INTERFACES
+                if name in INTERFACES:
+                    return InterfaceMethod(name, obj)
             return BuiltinMethod(name, obj)
         if isinstance(obj, BoundMethod):
             if name == "__name__":
@@ -1195,6 +1199,11 @@ class Interp:
             return self.call_function(f.func, [f.self_val] + args, kwargs, via_cls=f.via_cls)
         if isinstance(f, Closure):
             return self.call_closure(f, args, kwargs)
+        if isinstance(f, InterfaceMethod):
+            from .contracts import INTERFACES
+            from .contract_apply import apply_interface
+            self.contract_calls.add(f"interface:{f.name}")
+            return apply_interface(self, INTERFACES[f.name], f.recv, args, kwargs)
         if isinstance(f, UnknownMethod):
             return self.call_unknown_method(f, args, kwargs)
         if isinstance(f, BuiltinMethod):
@@ -1512,6 +1521,11 @@ class Interp:
     def frame_violation(self, what):
         """A store into an object that existed before this activation and is not covered by `modifies`."""
         self.path.oblige(f"frame[{what}]", z3.BoolVal(False), kind="frame", info={"what": what})
+        if not getattr(self, "frame_only", False):
+            # the path has its verdict; what the code does after an illegal store (e.g. recursing forever through an
+            # object that has just become its own child) is of no interest
+            from .engine import PathEnd
+            raise PathEnd()
 
     def assign_target(self, t, v, fr):
         if isinstance(t, ast.Name):
@@ -1730,6 +1744,11 @@ class Interp:
 class StarArgs:
     def __init__(self, v):
         self.v = v
+
+
+class InterfaceMethod:
+    def __init__(self, name, recv):
+        self.name, self.recv = name, recv
 
 
 class UnknownMethod:
